@@ -13,6 +13,8 @@ pub struct DebugConnection {
 impl DebugConnection {
     pub fn tcp(address: &str) -> MosResult<(DebugConnection, DebugIoThreads)> {
         let listener = TcpListener::bind(address)?;
+        #[cfg(datatrash_mos_verif)]
+        crate::verif_dbg::event("life", "\"what\":\"accept_enter\",\"n\":0");
         let (stream, _) = listener.accept()?;
         let (reader_receiver, reader) = make_reader(stream.try_clone().unwrap());
         let (writer_sender, writer) = make_write(stream.try_clone().unwrap());
